@@ -17,6 +17,7 @@ import sys
 import tempfile
 import time
 import traceback
+from typing import Any
 
 HERE = os.path.dirname(os.path.abspath(__file__))
 VERIF_DIR = os.path.dirname(HERE)
@@ -44,8 +45,40 @@ def source_hash(repo: str) -> str:
     return h.hexdigest()[:20]
 
 
-def setup_environment(boundscheck: bool = False) -> None:
-    """Must run before numba / moptipyapps are imported."""
+_LOCKS: list = []  # file objects whose flock lives as long as the process
+
+
+def _flock(cdir: str, exclusive: bool) -> Any:
+    import fcntl
+    fh = open(cdir.rstrip(os.sep) + ".lock", "a+")  # noqa: SIM115
+    fcntl.flock(fh, fcntl.LOCK_EX if exclusive else fcntl.LOCK_SH)
+    return fh
+
+
+def base_cache_dir(pid: str, boundscheck: bool) -> str:
+    """numba cache of (this source tree, this property): written by the
+    warm-up worker of that property only."""
+    cache_root = os.environ.get(
+        "VERIF_CACHE", os.path.join(VERIF_DIR, ".cache", "numba"))
+    tag = source_hash(repo_dir()) + ("-bc" if boundscheck else "")
+    return os.path.join(cache_root, tag, pid or "_")
+
+
+def setup_environment(boundscheck: bool = False, pid: str = "",
+                      role: str = "parent", scratch: str = "") -> None:
+    """Must run before numba / moptipyapps are imported.
+
+    numba's on-disk cache is not safe against concurrent writers: two
+    processes that save different signatures of one function at the same
+    moment can leave an index entry that points to the machine code of the
+    other signature (seen once as "can't unbox array from PyObject into
+    native value" in a run that had nothing to do with the changed code).
+    Therefore only the warm-up worker of a property (``role="warm"``, under
+    an exclusive lock) writes the base cache; every other process works on a
+    private copy of it (``role="private"``, made under a shared lock in
+    ``scratch``) and processes started by such a process inherit that copy
+    through ``VERIF_PRIVATE_CACHE``.
+    """
     repo = repo_dir()
     if not os.path.isdir(os.path.join(repo, "moptipyapps")):
         print(f"HARNESS-ERROR: no moptipyapps package under {repo}")
@@ -54,9 +87,26 @@ def setup_environment(boundscheck: bool = False) -> None:
     os.environ["VERIF_REPO"] = repo
     cache_root = os.environ.get(
         "VERIF_CACHE", os.path.join(VERIF_DIR, ".cache", "numba"))
-    tag = source_hash(repo) + ("-bc" if boundscheck else "")
-    cdir = os.path.join(cache_root, tag)
-    os.makedirs(cdir, exist_ok=True)
+    cdir = base_cache_dir(pid, boundscheck)
+    inherited = os.environ.get("VERIF_PRIVATE_CACHE")
+    if role != "warm" and inherited and os.path.isdir(inherited):
+        cdir = inherited
+    elif role == "private":
+        os.makedirs(cdir, exist_ok=True)
+        private = os.path.join(scratch or tempfile.mkdtemp(prefix="vf_nbc_"),
+                               "numba_cache")
+        lock = _flock(cdir, exclusive=False)
+        try:
+            shutil.copytree(cdir, private, dirs_exist_ok=True)
+        finally:
+            lock.close()
+        cdir = private
+        os.environ["VERIF_PRIVATE_CACHE"] = private
+    else:
+        os.makedirs(cdir, exist_ok=True)
+        if role == "warm":
+            os.environ.pop("VERIF_PRIVATE_CACHE", None)
+            _LOCKS.append(_flock(cdir, exclusive=True))
     os.environ["NUMBA_CACHE_DIR"] = cdir
     if boundscheck:
         os.environ["NUMBA_BOUNDSCHECK"] = "1"
@@ -66,11 +116,14 @@ def setup_environment(boundscheck: bool = False) -> None:
     os.environ.setdefault("OMP_NUM_THREADS", "1")
     os.environ.setdefault("OPENBLAS_NUM_THREADS", "1")
     os.environ.setdefault("MKL_NUM_THREADS", "1")
-    try:
-        os.utime(cdir, None)
-        _prune_cache(cache_root, keep=cdir)
-    except OSError:
-        pass
+    if role == "parent":
+        try:
+            tree = os.path.dirname(base_cache_dir(pid, boundscheck))
+            os.makedirs(tree, exist_ok=True)
+            os.utime(tree, None)
+            _prune_cache(cache_root, keep=tree)
+        except OSError:
+            pass
 
 
 def _prune_cache(root: str, keep: str) -> None:
@@ -106,7 +159,16 @@ def worker_main(argv: list[str]) -> int:
     pid, tier, seed, shard, nshards, part, out = (
         argv[0], argv[1], int(argv[2]), int(argv[3]), int(argv[4]), argv[5],
         argv[6])
-    setup_environment(boundscheck=part.endswith("@bc"))
+    # every temporary file of this worker and of its children lives below
+    # the parent's scratch directory, which the parent removes - also when a
+    # watchdog kills a child before its own clean-up ran
+    wtmp = os.path.join(out + ".d", "tmp")
+    os.makedirs(wtmp, exist_ok=True)
+    os.environ["TMPDIR"] = wtmp
+    tempfile.tempdir = wtmp
+    setup_environment(boundscheck=part.endswith("@bc"), pid=pid,
+                      role="warm" if shard < 0 else "private",
+                      scratch=out + ".d")
     import faulthandler
     faulthandler.enable()  # Python traceback into the worker log on SIGSEGV
     from vf.core import Ctx, Violation  # noqa: PLC0415
@@ -205,7 +267,11 @@ def replay_main(path: str) -> int:
         body = json.load(f)
     pid = body["property"]
     bc = bool(body.get("boundscheck")) or pid == "C13"
-    setup_environment(boundscheck=bc)
+    scratch = tempfile.mkdtemp(prefix="vf_replay_nbc_")
+    import atexit
+    atexit.register(shutil.rmtree, scratch, True)
+    setup_environment(boundscheck=bc, pid=pid, role="private",
+                      scratch=scratch)
     from vf.core import Ctx, Violation, unjson
     check_import()
     mod = load_prop(pid)
@@ -232,7 +298,8 @@ def replay_main(path: str) -> int:
 def parent_main(pid: str, tier: str) -> int:
     t0 = time.monotonic()
     seed = int(os.environ.get("VERIF_SEED", "1") or "1")
-    setup_environment()
+    os.environ.pop("VERIF_PRIVATE_CACHE", None)
+    setup_environment(pid=pid)
     modmeta = _read_meta(pid)
     parts = modmeta.get("parts", ["main"])
     nshards = int(os.environ.get(
@@ -267,7 +334,7 @@ def parent_main(pid: str, tier: str) -> int:
         # small warm-up worker per part compiles the kernels, so that the 16
         # shards of phase 2 load them from the cache instead of compiling the
         # same code 16 times. Its report is discarded.
-        phase1 = [(part, -1) for part in parts if _cache_is_cold(part)]
+        phase1 = [(part, -1) for part in parts if _cache_is_cold(part, pid)]
         phase2 = pending
         for phase in (phase1, phase2):
             queue = list(phase)
@@ -317,6 +384,8 @@ def parent_main(pid: str, tier: str) -> int:
                         errors.append(
                             f"worker {part}/{shard} exit {rc}:\n{tail}")
                 running = still
+        if not errors and not crashed:
+            _keep_compiled(tmp, parts, pid)
     finally:
         shutil.rmtree(tmp, ignore_errors=True)
 
@@ -357,9 +426,36 @@ def parent_main(pid: str, tier: str) -> int:
     return 0
 
 
-def _cache_is_cold(part: str) -> bool:
-    cdir = os.environ["NUMBA_CACHE_DIR"] + ("-bc" if part.endswith("@bc")
-                                            else "")
+def _keep_compiled(tmp: str, parts: list, pid: str) -> None:
+    """After a clean run the private cache of one shard per part (the one
+    with the most entries: a consistent single-writer superset of the base it
+    was copied from) becomes the base cache, under the exclusive lock."""
+    for part in parts:
+        best, most = None, 0
+        prefix = part.replace("@", "_") + "_"
+        for name in os.listdir(tmp):
+            d = os.path.join(tmp, name, "numba_cache")
+            if name.startswith(prefix) and name.endswith(".json.d") \
+                    and os.path.isdir(d):
+                cnt = sum(len(fs) for _r, _d, fs in os.walk(d))
+                if cnt > most:
+                    best, most = d, cnt
+        if best is None:
+            continue
+        base = base_cache_dir(pid, part.endswith("@bc"))
+        try:
+            os.makedirs(base, exist_ok=True)
+            lock = _flock(base, exclusive=True)
+            try:
+                shutil.copytree(best, base, dirs_exist_ok=True)
+            finally:
+                lock.close()
+        except OSError:
+            pass
+
+
+def _cache_is_cold(part: str, pid: str) -> bool:
+    cdir = base_cache_dir(pid, part.endswith("@bc"))
     if not os.path.isdir(cdir):
         return True
     for _root, _dirs, files in os.walk(cdir):
